@@ -63,6 +63,9 @@ func (f *Ash) Call(s *slip.Scope, args slip.List, depth int) (result slip.Object
 			if shifted := ti << uint(sh); sh < 63 && shifted>>uint(sh) == ti {
 				result = shifted
 			} else {
+				if ti != 0 {
+					checkIntegerBits(s, depth, f, args, float64(sh)+64)
+				}
 				var z big.Int
 				result = (*slip.Bignum)(z.Lsh(big.NewInt(int64(ti)), uint(sh)))
 			}
@@ -74,36 +77,13 @@ func (f *Ash) Call(s *slip.Scope, args slip.List, depth int) (result slip.Object
 			result = slip.Octet(uint64(ti) << sh)
 		}
 	case *slip.Bignum:
-		ba := (*big.Int)(ti).Bytes()
-		if sh < 0 {
-			sh = -sh
-			bs := sh / 8
-			sh %= 8
-			mask := byte(^(0xff << sh))
-			var rem byte
-			for i, b := range ba {
-				ba[i] = (b >> sh) | rem
-				rem = (mask & b) << (8 - sh)
-			}
-			ba = ba[:len(ba)-bs]
-		} else {
-			bs := sh / 8
-			bn := make([]byte, len(ba)+bs+1)
-			copy(bn[1:], ba)
-			sh %= 8
-			mask := byte(^(0xff >> sh))
-			for i, b := range bn {
-				if 0 < i {
-					bn[i-1] |= (mask & b) >> (8 - sh)
-				}
-				bn[i] = b << sh
-			}
-			ba = bn
-		}
 		var bi big.Int
-		bi.SetBytes(ba)
-		if (*big.Int)(ti).Sign() < 0 {
-			bi.Neg(&bi)
+		if sh < 0 {
+			// Rsh rounds toward negative infinity as ash does.
+			bi.Rsh((*big.Int)(ti), uint(-sh))
+		} else {
+			checkIntegerBits(s, depth, f, args, float64(sh)+float64((*big.Int)(ti).BitLen()))
+			bi.Lsh((*big.Int)(ti), uint(sh))
 		}
 		result = (*slip.Bignum)(&bi)
 	default:
